@@ -19,7 +19,7 @@ RULE = (
     "every one), each in two modes: resume in process, or to_json -> from_json -> update_scheduler "
     "-> run. The scheduler raises once at the crash point. Oracle: differential against the "
     "uninterrupted run of the same spec - pilot_signals, charging_rates (exact), delivered "
-    "energies, peak, iteration, event history as (type,time,session) and, when kept, schedule "
+    "energies, peak, iteration, event history as the ORDERED list of (time,type,session) and, when kept, schedule "
     "history compared numerically by period. After loading and before resuming: for every "
     "connected EV network.get_ev(station) is ev_history[id] is the pending unplug event's ev; the "
     "pending queue has the same (time,type,session) multiset as the interrupted original; a second "
@@ -48,8 +48,9 @@ def outcome(sim):
         "energies": {k: ev.energy_delivered for k, ev in sim.ev_history.items()},
         "peak": sim.peak,
         "iteration": sim.iteration,
-        # ties between events of equal time and type may be processed in either order
-        "events": sorted(sc.event_key(e) for e in sim.event_history),
+        # "the same event history": the processed events in the order they were processed (two
+        # arrivals of one period included - the resumed run pops them as the uninterrupted one does)
+        "events": [sc.event_key(e) for e in sim.event_history],
         "event_keys": [(e.timestamp, RANK[e.event_type]) for e in sim.event_history],
         "history": hist,
         "queue_empty": sim.event_queue.empty(),
